@@ -153,7 +153,9 @@ Inductive op :=
 | OLogging (c : conn) (spec : option name) (d : lvdata)   (* request `logging <spec> <level>` *)
 | OEmit (m : name) (lv : Z) (pyname : name)                (* a record of module m with level number lv; pyname: record.levelname.lower() *)
 | OIdent (c : conn)                                        (* request `*IDN?` *)
-| ODisconnect (c : conn).                                  (* remove_connection *)
+| ODisconnect (c : conn)                                   (* remove_connection *)
+| OActivate (c : conn) (spec : option name)                (* request `activate [<module>[:<parameter>]]` (event subscriptions) *)
+| ODeactivate (c : conn) (spec : option name).             (* request `deactivate [<module>[:<parameter>]]` *)
 
 Definition step (mods : list name) (t : table) (o : op) : table * (list delivery * option exn) :=
   match o with
@@ -161,7 +163,17 @@ Definition step (mods : list name) (t : table) (o : op) : table * (list delivery
   | OEmit m lv py => (t, (handle t m lv py, None))
   | OIdent c => let '(t', e) := reset_connection mods t c in (t', ([], e))
   | ODisconnect c => let '(t', e) := reset_connection mods t c in (t', ([], e))
+  (* handle_activate / handle_deactivate work on Dispatcher._subscriptions / _active_connections (property C08) only:
+     they do not call reset_connection / set_all_log_levels / setRemoteLogging (translator fact
+     activation_handlers_leave_logging_alone, an obligation), so the subscription table of the log handler is not
+     touched and no log message is sent.  Whether such a request is accepted or rejected (unknown module, data given)
+     is C08's business: the exception component is None here and Run.v does not compare it for these two operations. *)
+  | OActivate _ _ | ODeactivate _ _ => (t, ([], None))
   end.
+
+(* the two requests about event subscriptions (not about logging) *)
+Definition is_activation (o : op) : bool :=
+  match o with OActivate _ _ | ODeactivate _ _ => true | _ => false end.
 
 Definition run (mods : list name) (ops : list op) : table :=
   fold_left (fun t o => fst (step mods t o)) ops [].
